@@ -307,6 +307,41 @@ R.contract(
 )
 
 
+# ------------------------------------------------------------------------------------------------- dispatch (non-strategy hooks): each registered hook that its own filters admit is called once, in order
+_gabn = R.contracts[H + "HookDispatcher.get_all_by_name"]
+_gabn_before = _gabn.returns
+
+
+def _hooks_for_dispatch(it, env):
+    if getattr(it.top_contract, "target", "").endswith("HookDispatcher.dispatch"):
+        n = it.path.choose([(k, True) for k in (0, 1, 2, 3)], "n-hooks")
+        it.path.bounded_inputs.add("up to 3 hooks registered under the name")
+        hooks = [fresh_opaque(it, "EventHook") for _ in range(n)]
+        it.ghost["registered_hooks"] = hooks
+        it.ghost["asked_name"] = env["name"]
+        return hooks
+    return _gabn_before.make(it, it.path.fresh("ret:get_all_by_name"))
+
+
+_gabn.returns = _hooks_for_dispatch
+R.opaque_classes["EventHook"] = "spec:EventHook"
+R.contract("spec:EventHook.__call__", args={"self": Opq("EventHook"), "context": Opq("Any")}, returns=NoneT, trusted=True, effects={"calls": "ghost('calls') + [(self, context)]"},
+           note="a user hook that is not a strategy transformer (before_add_examples, after_call, ...)")
+R.contract(
+    H + "HookDispatcher.dispatch",
+    prop="C19",
+    args={"self": Opq("Dispatcher"), "name": Str, "context": Opq("HookCtx"), "args": Const(()), "kwargs": Const({})},
+    ghost={"registered_hooks": None, "asked_name": None, "calls": [], "seqs": [], "names": []},
+    raises=[],
+    ensures={
+        # applied exactly where their own filters say: every hook registered under THIS name whose filters admit the operation runs once, in registration order, with the context; no other hook runs
+        "exactly_the_admitted_hooks_run_once_in_order": "ghost('asked_name') == name and length(ghost('calls')) == length([h for h in ghost('registered_hooks') if not skip(h, context)]) and "
+                                                        "all(c[0] is h and c[1] is context for c, h in zip(ghost('calls'), [h for h in ghost('registered_hooks') if not skip(h, context)]))",
+    },
+    replayable=False,
+)
+
+
 # ------------------------------------------------------------------------------------------------- auth providers: applied exactly where their filters say, in scope order
 AU = "schemathesis.auths:"
 R.contract("spec:provider_get", args={"case": Opq("Any"), "context": Opq("Any")}, returns=OneOf(NoneT, Opq("AuthData")), trusted=True,
@@ -506,4 +541,75 @@ R.contract(
     },
     replayable=False,
 )
+
+
+# ------------------------------------------------------------------------------------------------- schema.hooks.apply(hook): registered at TEST scope, on that test only
+def _mark_store():
+    def is_set(it, a, k):
+        return it.ghost["test_dispatcher"] is not None
+
+    return is_set
+
+
+R.extern["collections.defaultdict"] = lambda it, a, k: {}  # (only ever indexed inside register_hook_with_name, which is used through its contract here)
+R.contract("schemathesis.core.marks:Mark.is_set", args={"self": Opq("Any"), "obj": Opq("Any")}, trusted=True,
+           returns=lambda it, env: (it.ghost["test_dispatcher"] is not None) if "test_dispatcher" in it.ghost else Bool.make(it, it.path.fresh("is_set")),
+           note="whether the test function already carries a mark (hooks: ghost `test_dispatcher`; auth: arbitrary)")
+R.contract("schemathesis.core.marks:Mark.set", args={"self": Opq("Any"), "obj": Opq("Any"), "value": Opq("Any")}, returns=NoneT, trusted=True,
+           effects={"marked_with": "value", "test_dispatcher": "value", "marked_func": "func", "created": "ghost('created') + 1"}, note="stores the value on the test function")
+R.contract("schemathesis.core.marks:Mark.get", args={"self": Opq("Any"), "func": Opq("Any")}, trusted=True, returns=lambda it, env: it.ghost["test_dispatcher"], note="the dispatcher stored on the test function")
+_rh = R.contracts[H + "HookDispatcher.register_hook_with_name"]
+_rh.effects = {**_rh.effects, "registered_on": "self", "registered_as": "name", "registered_hook": "hook"}
+
+
+def _apply_setup(existing):
+    def setup(it):
+        from pyvc.verify import locate
+        from pyvc.values import VObj
+
+        _, _, outer = locate(it, H + "HookDispatcher.apply")
+        cls = it.resolve_class(H + "HookDispatcher")
+        it.ensure_enum(it.resolve_class(H + "HookScope"))
+        schema_dispatcher = VObj(cls, {"scope": it.resolve_class(H + "HookScope").members["SCHEMA"], "_hooks": {}})
+        hook = VObj(it.resolve_class("spec:UserFunction"), {"__name__": "before_generate_query"})
+        name = OneOf(NoneT, Str).make(it, "name")
+        it.ghost["schema_dispatcher"] = schema_dispatcher
+        it.ghost["hook"] = hook
+        it.ghost["given_name"] = name
+        if existing:
+            it.ghost["test_dispatcher"] = VObj(cls, {"scope": it.resolve_class(H + "HookScope").members["TEST"], "_hooks": {}})
+            it.ghost["earlier_dispatcher"] = it.ghost["test_dispatcher"]
+        saved = it.top_target
+        it.top_target = H + "HookDispatcher.apply"
+        try:
+            decorator = it.call_function(outer, [schema_dispatcher, hook], {"name": name})
+        finally:
+            it.top_target = saved
+        return decorator, {}
+
+    return setup
+
+
+R.contracts[H + "to_filterable_hook"].inline = True  # (constructing a dispatcher runs it; its own contract is verified above)
+for _variant, _existing in (("first-hook-of-the-test", False), ("test-already-has-hooks", True)):
+    R.contract(
+        H + "HookDispatcher.apply.<locals>.decorator",
+        variant=_variant,
+        prop="C19",
+        setup=_apply_setup(_existing),
+        args={"func": Obj("spec:UserFunction", __name__=Const("test_api"))},
+        ghost={"schema_dispatcher": None, "hook": None, "given_name": None, "test_dispatcher": None, "earlier_dispatcher": None, "marked_func": None, "created": 0, "registered": 0,
+               "registered_on": None, "registered_as": None, "registered_hook": None},
+        raises=["TypeError", "ValueError"],
+        ensures={
+            # "at the scope registered": the hook goes to the TEST's own dispatcher (TEST scope) - never to the schema's dispatcher it was applied through - under the given name (default: its function name)
+            "registered_on_the_tests_own_dispatcher_only": "ghost('registered') == 1 and ghost('registered_on') is ghost('test_dispatcher') and ghost('registered_on') is not ghost('schema_dispatcher') and "
+                                                           "ghost('registered_on').scope.name == 'TEST' and ghost('registered_hook') is ghost('hook')",
+            "under_the_given_name_or_the_functions_own": "ghost('registered_as') == (ghost('given_name') if ghost('given_name') is not None else 'before_generate_query')",
+            **({"an_existing_test_dispatcher_is_reused": "ghost('test_dispatcher') is ghost('earlier_dispatcher') and ghost('created') == 0"} if _existing else
+               {"a_test_scoped_dispatcher_is_created_on_this_test": "ghost('created') == 1 and ghost('marked_func') is func"}),
+            "the_test_function_is_returned": "result is func",
+        },
+        replayable=False,
+    )
 
